@@ -138,3 +138,36 @@ PROPS["C07"] = dict(
               "threads as first-order scripts; the reload id as a counter bumped by IncReload"],
     assumptions=["memory orderings not modelled", "callers of hot_reload hold no guard"],
 )
+
+PROPS["C15"] = dict(
+    technique="Coq proof about the reloader loop as a state machine over two crossbeam-style channels "
+              "(idle blocks, no busy iteration, exit at the next iteration once the cache-message "
+              "channel is disconnected, for every Select::ready choice); exit arm read off the current "
+              "source; /proc sampling of the real reloader threads after create/use/drop sequences",
+    level_text="Theorems (Props/C15.v, closed under the global context): the printed hot_reloading_thread "
+               "leaves the thread on a disconnected cache-message channel; for the loop model idle "
+               "inboxes block, every non-blocking non-exiting iteration consumes a message (no spin), a "
+               "dropped cache makes the loop Exited at its next iteration whatever the event channel "
+               "holds, and it stays Exited (no accumulation); the pre-repair loop spins (D4 witness).  "
+               "Partial: CPU time and thread exit are OS observations, sampled by the engine.",
+    level_note="Trusted: crossbeam Select::ready/try_recv/disconnect semantics as modelled, the watcher keeps "
+               "its EventSender (modelled), /proc/self/task sampling (1 tick = 10 ms; threshold: more than "
+               "1 tick in the window = busy).",
+    gen=["HotReloading"],
+    model_files=["Ref/Reloader.v"],
+    model_targets=["Ref/Reloader.vo"],
+    proof_files=["Proofs/Reloader.v", "Tie/Answers.v", "Props/C15.v"],
+    proof_targets=["Props/C15.vo"],
+    props_module="Props.C15",
+    theorems=["C15_code_leaves_the_loop_when_the_cache_is_gone", "C15_idle_blocks", "C15_no_spin",
+              "C15_exits_after_drop", "C15_no_accumulation", "C15_old_loop_spins"],
+    engines=[("loopdiff", [])],
+    rule="loopdiff: idle live caches (in-memory and FileSystem sources) must show sleeping reloader "
+         "tasks with 0 ticks; then create/use/drop sequences of 1..3 (quick) / 1..8 (thorough) caches, "
+         "dropped while idle / right after hot_reload / with queued events / after loads, over both "
+         "source kinds; after each sequence the assets_hot_relo* tasks are sampled: none may consume "
+         "CPU.  Every sampled configuration is non-trivial and distinct.",
+    trusted_base=["/proc sampling; the scheduler"],
+    modelled=["channels as (queue length, connected); Select::ready as a boolean choice when both ready"],
+    assumptions=["the event sender may stay alive after the cache (a watcher lets go only when a send fails)"],
+)
